@@ -11,7 +11,7 @@
 From Coq Require Import NArith ZArith List Bool.
 From SFV Require Import Base.Bytes Base.F64 Msgpack.Wire Read.Lazy Read.ReadRun Read.ReadSpec Read.ReadFuel Read.ReadProofs.
 From SFV Require Import Base.RsPrelude Read.LazyTypes Gen.LazyNewGen Read.LazyNewGenEq Read.SeqCorollaries.
-From SFV Require Import Gen.LazyLoopsGen Read.ReadSafe Read.ReadRobust Read.LazyLoopsStmt Read.LoopsEq Read.GenRun Read.GenRunEq Gen.ReadAbiGen Read.ReadAbiEq.
+From SFV Require Import Gen.LazyLoopsGen Read.ReadSafe Read.ReadRobust Read.LazyLoopsStmt Read.LoopsEq Read.GenRun Read.GenRunEq Gen.ReadAbiGen Read.ReadAbiEq Read.AbiCall Read.AbiCallEq.
 Import ListNotations.
 Open Scope N_scope.
 
@@ -328,3 +328,35 @@ Theorem C01_code_abi_model_val_len : ltac:(let t := type of @model_val_len_dispa
 Proof. exact @model_val_len_dispatch. Qed.
 Theorem C01_code_abi_codes : ltac:(let t := type of @abi_codes_agree in exact t).
 Proof. exact @abi_codes_agree. Qed.
+
+(** * The exported read functions at the ABI level, both translations plugged together (Read/AbiCall.v)
+
+    [abi_get_at_index], [abi_get_obj_key_at_index], [abi_get_obj_prop], [abi_get_val_len] are the translated exported functions
+    of provider/src/read.rs (Gen/ReadAbiGen.v) with their oracles INSTANTIATED by the translated node operations
+    (Gen/LazyLoopsGen.v) on the forest of Read/GenRun.v; the only thing left abstract is the address of a node (any map [addr]
+    from handles to addresses with a left inverse).  For every reachable state of [g_run] and a scope that is the NaN box of an
+    earlier answer [a] ([bits_of_answer]: what [LazyValueRef::encode] / [NanBox::error] / [NanBox::null] / [NanBox::number] return)
+    each returns the NaN box of what the corresponding call of Read/GenRun.v returns -- NaN-boxed scope in, NaN-boxed answer out;
+    an undecodable scope gets the documented error.  Explicit hypotheses (see Read/AbiCallEq.v): [answer_wf] (the address of the
+    scope's handle is a non-null usize, numbers are not NaN, error codes are usize values), [answer_live] (the node behind the
+    handle is in the forest: proved for strings, [C01_code_abi_call_live_str]; for containers the arena never frees, which the
+    model has no invariant for on arbitrary bytes), [out_wf] (the call's own error code is a usize value).
+    (The statements are the types of the lemmas of Read/AbiCallEq.v, printed in full in coq/pins/C01.golden.) *)
+Theorem C01_code_abi_call_get_at_index : ltac:(let t := type of @abi_call_get_at_index in exact t).
+Proof. exact @abi_call_get_at_index. Qed.
+Theorem C01_code_abi_call_get_obj_key_at_index : ltac:(let t := type of @abi_call_get_obj_key_at_index in exact t).
+Proof. exact @abi_call_get_obj_key_at_index. Qed.
+Theorem C01_code_abi_call_get_obj_prop : ltac:(let t := type of @abi_call_get_obj_prop in exact t).
+Proof. exact @abi_call_get_obj_prop. Qed.
+Theorem C01_code_abi_call_get_val_len : ltac:(let t := type of @abi_call_get_val_len in exact t).
+Proof. exact @abi_call_get_val_len. Qed.
+Theorem C01_code_abi_call_get_at_index_garbage : ltac:(let t := type of @abi_call_get_at_index_garbage in exact t).
+Proof. exact @abi_call_get_at_index_garbage. Qed.
+Theorem C01_code_abi_call_get_obj_key_at_index_garbage : ltac:(let t := type of @abi_call_get_obj_key_at_index_garbage in exact t).
+Proof. exact @abi_call_get_obj_key_at_index_garbage. Qed.
+Theorem C01_code_abi_call_get_obj_prop_garbage : ltac:(let t := type of @abi_call_get_obj_prop_garbage in exact t).
+Proof. exact @abi_call_get_obj_prop_garbage. Qed.
+Theorem C01_code_abi_call_get_val_len_garbage : ltac:(let t := type of @abi_call_get_val_len_garbage in exact t).
+Proof. exact @abi_call_get_val_len_garbage. Qed.
+Theorem C01_code_abi_call_live_str : ltac:(let t := type of @answer_live_str in exact t).
+Proof. exact @answer_live_str. Qed.
